@@ -427,7 +427,7 @@ def run(tier, seed):
 def replay(path):
     with open(path) as f:
         r = json.load(f)
-    ps = {p.id: p for p in CP.all_fixed()}
+    ps = {p.id: p for p in CP.catalogue()}
     if r.get("info", {}).get("kind") == "cpp-symmetry":
         from .cpph import CppFilter
 
